@@ -151,10 +151,27 @@ def d4(ctx, rep):
     lp = loops[0]
     sv = lp.target.id
     rec = [c for c in ast.walk(lp) if isinstance(c, ast.Call) and call_name(c) == '_select_candidates']
-    good = bool(rec) and len(rec[0].args) == 2 and all(isinstance(a, ast.Name) for a in rec[0].args) \
-        and [a.id for a in rec[0].args] == [pa, pb] and isinstance(rec[0]._parent, ast.Call) and call_name(rec[0]._parent) == 'extend'
-    rep.check('D4.enum', fn, rec[0] if rec else lp, good, 'recurses with (parametric, bounded) unchanged and extends the result',
-              'the recursion does not pass both filters through in order / drops the sub-results', construct='recursion')
+    if not rec:
+        rep.undecided('D4.enum', fn, lp, 'no recursive call of _select_candidates in the subclass loop: how nested subclasses are reached is not derived',
+                      construct='recursion')
+    else:
+        r0 = rec[0]
+        kws = {k.arg: k.value for k in r0.keywords}
+        got = [getattr(a, 'id', None) for a in r0.args] + [None] * 2
+        pa_arg = got[0] if r0.args else getattr(kws.get(pa), 'id', None)
+        pb_arg = got[1] if len(r0.args) > 1 else getattr(kws.get(pb), 'id', None)
+        dropped = isinstance(r0._parent, ast.Expr)
+        opaque = any(not isinstance(a, ast.Name) for a in r0.args) or any(k.arg is None or not isinstance(k.value, ast.Name) for k in r0.keywords)
+        if opaque and not dropped:
+            rep.undecided('D4.enum', fn, r0, 'arguments of the recursive call not recognised', construct='recursion')
+        elif dropped:
+            rep.bad('D4.enum', fn, r0, 'the result of the recursive call is dropped: subclasses of subclasses are never candidates', construct='recursion')
+        elif (pa_arg, pb_arg) == (pa, pb):
+            rep.ok('D4.enum', fn, r0, 'recurses with (parametric, bounded) unchanged and uses the result', construct='recursion')
+        elif {pa_arg, pb_arg} == {pa, pb} or pa_arg is None or pb_arg is None:
+            rep.bad('D4.enum', fn, r0, 'the recursion does not pass both filters through in order / drops the sub-results', construct='recursion')
+        else:
+            rep.undecided('D4.enum', fn, r0, 'arguments of the recursive call not recognised', construct='recursion')
     # the condition under which a subclass is appended, as a boolean formula over the loop body
     from ..boolcond import Conds, atoms_of, equivalent, f_and, f_not, implies, show
     app = [c for c in ast.walk(lp) if isinstance(c, ast.Call) and call_name(c) == 'append' and c.args and isinstance(c.args[0], ast.Name)
